@@ -183,8 +183,11 @@ impl ProbeCore {
         probe_point();
         tlog!("src enter");
         let e = self.script.get(self.pos).copied();
+        let call_no = self.pos;
         self.pos = self.pos.saturating_add(1);
         probe_point();
+        // re-entrancy: this very `next()` asks the concurrent iterator that wraps it how much is left
+        rt::reenter(call_no);
         match e {
             Some(Entry::S(v)) => {
                 tlog!("src exit some {}", v);
